@@ -223,7 +223,13 @@ def run(rep, tier):
         if not assigns:
             return None
         mult = 1
-        for s_ in sub(assigns[0]['c'][1]):
+        # the value may be computed into a local first (`double ms = x * 1000; delayMs = clamp(ms);`)
+        linit = {d_['lid']: d_['init'] for s_ in sub(stmt) if s_['k'] == 'DeclStmt' for d_ in s_.get('decls', []) if isinstance(d_.get('init'), dict) and 'lid' in d_}
+        exprs = list(sub(assigns[0]['c'][1]))
+        for x_ in list(exprs):
+            if x_['k'] == 'DeclRefExpr' and x_.get('ref', {}).get('lid') in linit:
+                exprs += list(sub(linit[x_['ref']['lid']]))
+        for s_ in exprs:
             if s_['k'] == 'BinaryOperator' and s_.get('op') == '*':
                 for side in s_['c']:
                     cv = tab.const_of(side)
@@ -339,3 +345,55 @@ def run(rep, tier):
         rep.fail('R09.6', 'enqueueDelayed|narrowing to %s' % t, locstr(n), 'for delays up to one year the value in [%d, %d] does not fit the %s it is converted to: the delay wraps (fires early / out of order)' % (iv[0], iv[1], t))
     if not narrowing:
         rep.ok('R09.6', 'enqueueDelayed|no-narrowing', 'interval analysis for delayMs in [0, 1 year]: every conversion on the way to the timeval fits its target type')
+
+    # ---- R09.7 the number taken from the delay text is a defined value for every text
+    rep.rule('R09.7', 'a defined delay for every text: the conversion helper the delay goes through (uscxml::strTo<T>) initialises the value it returns - stream extraction leaves its operand untouched when the text is empty (delay="s", a delayexpr without digits)')
+    insts = [f_ for f_ in fb.funcs.values() if f_.q == 'uscxml::strTo']
+    used = {x.get('callee', {}).get('q') for x in ps.walk()}
+    if 'uscxml::strTo' not in used:
+        rep.ok('R09.7', 'processSend|no strTo', 'processSend does not convert the delay with strTo any more')
+    else:
+        rep.minimum('R09.7', len(insts), 2, 'instantiations of uscxml::strTo')
+        bad = []
+        for f_ in insts:
+            rets = [x for x in f_.walk() if x['k'] == 'ReturnStmt' and x.get('c')]
+            for r_ in rets:
+                for y in sub(r_['c'][0]):
+                    if y['k'] == 'DeclRefExpr' and 'lid' in y.get('ref', {}):
+                        decl = next((d_ for s_ in f_.walk() if s_['k'] == 'DeclStmt' for d_ in s_.get('decls', []) if d_.get('lid') == y['ref']['lid']), None)
+                        assigned = any(s_['k'] == 'BinaryOperator' and s_.get('op') == '=' and any(z.get('ref', {}).get('lid') == y['ref']['lid'] for z in sub(s_['c'][0])) for s_ in f_.walk())
+                        if decl is not None and decl.get('init') is None and not assigned:
+                            bad.append((f_, decl, r_))
+        rep.check(not bad, 'R09.7', 'strTo|returned value initialised', locstr(bad[0][2]) if bad else (insts[0].where() if insts else ps.where()),
+                  'strTo returns %s' % ('a value-initialised local in all %d instantiations' % len(insts) if not bad else
+                                        'the local `%s %s;` that only the stream extraction writes: for a text without digits the delay is an indeterminate value (the event is neither delivered nor refused)' % (bad[0][1].get('t'), bad[0][1]['name'])))
+
+    # ---- R09.8 a floating millisecond count is converted only inside the integer's range
+    rep.rule('R09.8', 'no early delivery by wrap-around: in processSend a floating-point value becomes the integer millisecond count only under a comparison of that value with a bound (conversion of an out-of-range double is undefined and wraps modulo 2^32 in practice: delay="4294968s" fired after 0.7 s)')
+    FLOATS = ('double', 'float', 'long double')
+    def is_int_t(t):
+        t = (t or '').replace('const ', '').strip()
+        return width(t) is not None
+    convs = []
+    for x in ps.walk():
+        if x['k'] in ('ImplicitCastExpr', 'CStyleCastExpr', 'CXXStaticCastExpr', 'CXXFunctionalCastExpr') and is_int_t(x.get('t')) and x.get('c'):
+            o_ = x['c'][0]
+            if (o_.get('t') or '').replace('const ', '').strip() in FLOATS:
+                convs.append((x, o_))
+    for x, o_ in convs:
+        names = {y['ref'].get('lid') for y in sub(o_) if y['k'] == 'DeclRefExpr' and 'lid' in y.get('ref', {})}
+        otext = ' '.join(fb.text(strip(o_)).split())
+        def bounds(cn):
+            for y in sub(cn):
+                if y.get('op') in ('<', '<=', '>', '>=') and y['k'] in ('BinaryOperator', 'CXXOperatorCallExpr'):
+                    ys = y['c'][-2:]
+                    if any(({z['ref'].get('lid') for z in sub(s_) if z['k'] == 'DeclRefExpr' and 'lid' in z.get('ref', {})} & names) or ' '.join(fb.text(strip(s_)).split()) == otext for s_ in ys):
+                        return True
+            return False
+        ok = any(y.get('callee', {}).get('q', '') in ('std::min', 'fmin', 'std::fmin') for y in sub(o_))
+        for a_ in ps.ancestors(x):
+            if a_['k'] in ('ConditionalOperator', 'IfStmt') and a_.get('c') and not any(z is x for z in sub(a_['c'][0])) and bounds(a_['c'][0]):
+                ok = True
+        rep.check(ok, 'R09.8', 'processSend|%s -> %s' % (o_.get('t'), x.get('t')), locstr(x), 'the floating value `%s` is converted to %s %s' % (
+            otext[:50], x.get('t'), 'under a range test of that value' if ok else 'WITHOUT a range test: a delay in seconds above 4294967 wraps and the event is delivered early, before events with smaller delays'))
+    rep.ok('R09.8', 'processSend|conversions', '%d conversions from a floating type to an integer type in processSend' % len(convs))
